@@ -64,19 +64,27 @@ def run(tier):
     classes = workload_classes(k)
     seqs = A.generate(chk, "work", W, 1, len(classes), 1)
     reps = 8 if quick else 24
+    # quick: every workload of <= W-1 blocks and a seeded sample of those with W blocks
+    if quick:
+        full = [s for s in seqs if len(s) < W]
+        rs = A.rng_for(chk, "c04-sample")
+        used = full + rs.sample([s for s in seqs if len(s) == W], 100)
+    else:
+        used = seqs
     plans = []
-    for i, s in enumerate(seqs):
+    for i, s in enumerate(used):
         for j, order in enumerate(("fifo", "lifo", "inter")):
             plans.append({"kind": "work", "blocks": [classes[c - 1] for c in s], "free": order, "reps": reps,
                           "base": reps // 2, "os": "bad"[(i + j) % 3], "src": "tlc-workload"})
     n_tlc = len(plans)
     rng = A.rng_for(chk, "c04")
-    if not quick:
-        # long repetition of a sample: N = 200
-        for i in rng.sample(range(n_tlc), 300):
-            p = dict(plans[i])
-            p.update({"reps": 200, "base": 100, "src": "tlc-workload-long", "os": rng.choice("bad")})
-            plans.append(p)
+    # long repetition of a sample (N = 200), biased towards workloads that make the heap trim
+    big = [i for i in range(n_tlc) if classes[-1] in plans[i]["blocks"]]
+    for i in rng.sample(big, 24 if quick else 200) + rng.sample(range(n_tlc), 6 if quick else 100):
+        p = dict(plans[i])
+        p.update({"reps": 200, "base": 100, "src": "tlc-workload-long", "os": rng.choice("bdd"), "rand_place": rng.random() < 0.3,
+                  "seed": rng.randrange(1, 1 << 40)})
+        plans.append(p)
     # boundary-size workloads (random multisets from the C03 alphabet), random placement
     sizes = A.boundary_sizes(k)
     for i in range(150 if quick else 1500):
@@ -87,8 +95,8 @@ def run(tier):
                       "src": "boundary-workload"})
     # churn: allocations and frees interleave (this is where freed space must be reused)
     small = A.small_classes(k)
-    for i in range(60 if quick else 400):
-        plans.append({"kind": "churn", "seed": rng.randrange(1, 1 << 40), "period": rng.choice([60, 150, 300]),
+    for i in range(40 if quick else 400):
+        plans.append({"kind": "churn", "seed": rng.randrange(1, 1 << 40), "period": rng.choice([40, 100, 200] if quick else [60, 150, 300]),
                       "slots": rng.choice([6, 16, 40]), "max": rng.choice([3000, 70000, 400000]), "reps": reps,
                       "base": reps // 2, "os": rng.choice("bad"), "rand_place": i % 2 == 1, "classes": small,
                       "src": "churn"})
@@ -158,13 +166,14 @@ def run(tier):
     chk.exhaustive = False
     chk.rule = ("TLC model-checks the disciplined design of AllocAbs (8-byte arena, 2 blocks, 2 repetitions) against "
                 "NoGratuitousMap/SteadyState/Envelope/ReleaseOnce and shows each violable by an undisciplined allocator; TLC "
-                "(AllocGen) enumerates all %d allocation orders of <= %d blocks over %d size classes x 3 free orders; each "
-                "workload is run %d times (sample: 200) on the real Dlmalloc over the simulated OS with rotating placement, plus "
+                "(AllocGen) enumerates all %d allocation orders of <= %d blocks over %d size classes (x 3 free orders); %d of them (quick: all "
+                "with fewer blocks + a sample of the longest; thorough: all) are run; each "
+                "workload is run %d times (a sample 200 times) on the real Dlmalloc over the simulated OS with rotating placement, plus "
                 "boundary-size workloads and churn workloads; every step is judged by TLC (baseline = first half of the "
                 "repetitions). evaluations = repetition marks judged; non-trivial = distinct workloads in which the OS was asked "
-                "for memory after the first repetition or memory was handed back" % (len(seqs), W, len(classes), reps))
+                "for memory after the first repetition or memory was handed back" % (len(seqs), W, len(classes), len(used), reps))
     chk.assumptions = [
-        "footprint = bytes held from the simulated OS (exact); 'arbitrarily large N' is N = %d (sample N = 200 thorough): no model of the allocator's internal state shows periodicity yet (DlHeap.tla is future work)" % reps,
+        "footprint = bytes held from the simulated OS (exact); 'arbitrarily large N' is N = %d (sample: N = 200): no model of the allocator's internal state shows periodicity yet (DlHeap.tla is future work)" % reps,
         "SteadyState: memory still held at a repetition mark after the first N/2 repetitions <= the most ever held during the first N/2 repetitions + one granularity (a heap that is trimmed after some repetitions and not after others - the OS placed a segment differently - is not growing); runs whose marks after repetition 2 exceed the marks of repetitions 1..2 by more than a granularity are counted as runs_with_transient_after_rep2, not judged",
         "Envelope (workload runs only): footprint <= 2 x peak padded demand + 2 x trim threshold, padded demand of a block = size + 2 x align + 256 + granularity",
         "NoGratuitousMap: an OS request is gratuitous if size + 2 x align + 256 bytes fit into one block-free extent of a single OS-granted piece",
